@@ -7,7 +7,7 @@ THEOREMS = ["Momtrop.C18.schema_matches", "Momtrop.C18.dec_enc_edge", "Momtrop.C
             "Momtrop.C18.dec_enc_table", "Momtrop.C18.decode_encode", "Momtrop.C18.observation_after_roundtrip"]
 RULE = ("the serde schema is re-extracted from /repo/src on every run and checked by a kernel-checked theorem against the model; real round "
         "trips of samplers built through the public API (catalogue/random graphs, D=1..6 with D*L odd and even, signatures with negative "
-        "entries and |entries|>=2, vacuum graphs without externals, disconnected graphs) through serde_json (text), serde_json::Value, "
+        "entries and |entries|>=2, vacuum graphs without externals, disconnected graphs, tables with values beyond 2^63, 8-edge graphs) through serde_json (text), serde_json::Value, "
         "ciborium (binary, exact f64) and the harness's own value-tree format with structs as maps and as SEQUENCES, comparing getters, "
         "table, signature and 40 (quick) / 400 (thorough) samples bit for bit. Non-trivial: multi-loop sampler or negative signature entry")
 ASSUMPTIONS = ["serde derive semantics (struct = map of all fields in order) is the model; the real formats are exercised by the round trips"]
@@ -46,7 +46,7 @@ def run(ctx):
     rng = ctx.rng
     structs, manual = serde_schema.extract()
     ss = S.generate(ctx, 12 if ctx.quick else 80, 1, max_e=6, max_loops=3, routings_per_graph=1, kinds=("uniform",),
-                    special=("vacuum", "disconnected") * (2 if ctx.quick else 8))
+                    special=("vacuum", "disconnected", "huge_j") * (2 if ctx.quick else 8) + ("eight",) * (1 if ctx.quick else 4))
     reqs, infos = [], []
     npts = 40 if ctx.quick else 400
     for s in ss:
